@@ -193,7 +193,19 @@ def ilength_inverts_length_sampled(c, kind, scipy):
             return
         t = out.value
         c.ensures('result-in-[0,1]', 0 <= t <= 1)
-        c.ensures('length(0,t)==s-to-tolerance', abs(obj.length(0, t) - s) <= max(1e-9, 1e-9 * L))
+        tol = max(1e-9, 1e-9 * L)
+        ok = abs(obj.length(0, t) - s) <= tol
+        if not ok and 0 < t < 1:
+            # is length() itself continuous to the tolerance around t?  (scipy's quad, trusted with
+            # epsabs=1e-12, answers with a step of ~1e-5 between neighbouring floats next to an almost
+            # singular point of a cubic: no t can then satisfy the clause; reported under its own
+            # clause name, which is the known finding)
+            lo, hi = obj.length(0, math.nextafter(t, 0.0)), obj.length(0, math.nextafter(t, 1.0))
+            here = obj.length(0, t)
+            if not (lo - tol <= here <= hi + tol) or abs(hi - lo) > 2 * tol:
+                c.ensures('length(0,t)==s-to-tolerance[where-length(0,.)-jumps-by-more-than-the-tolerance-between-the-floats-next-to-t]', False)
+                ok = True
+        c.ensures('length(0,t)==s-to-tolerance', ok)
         c.ensures('non-decreasing-in-s', t >= prev - 1e-9)
         prev = t
     c.ensures('ilength(0)==0', obj.ilength(0) == 0)
